@@ -21,6 +21,10 @@
 //	G<len>:<seed>:<enc>  generated entity: <len> plain bytes from <seed>, coded id|gzip|deflate|form or, undecodable:
 //	                     gzbad (bad gzip header), gztrunc (tail cut), gzcrc (bad CRC), gzpad (zero padding after the
 //	                     member), gzjunk (garbage after the member), zlib (RFC 1950 wrapper, for Content-Encoding: deflate)
+//	E<kind>:<pos>        body source script: the parsed message's Body is replaced by a reader that hands out the entity in
+//	                     pieces of <= 512 bytes and after <pos> bytes fails with kind ueof|net|custom (error in a call of its
+//	                     own) or ueof+|net+|custom+ (error returned together with the last piece); eof+ = no failure, the
+//	                     last piece comes with io.EOF in the same call
 //	C<n>                 run n variants of the case (body seeds +1..+n) concurrently; fwd=0 unless each equals its sequential run
 //	K<n>                 chunk size used on the wire (default: one chunk)
 //	T<hexkey>:<hexval>   trailer field sent; D<hexkey> trailer declared only; U: do not declare sent trailers
@@ -36,8 +40,10 @@ import (
 	"compress/zlib"
 	"crypto/sha256"
 	"encoding/hex"
+	"errors"
 	"fmt"
 	"io"
+	"net"
 	"net/http"
 	"net/http/httputil"
 	"sort"
@@ -81,6 +87,8 @@ type spec struct {
 	skip       bool
 	bad        string
 	conc       int
+	srcKind    string
+	srcPos     int
 }
 
 func genBody(n int, seed uint64, enc string) []byte {
@@ -255,6 +263,19 @@ func parseSpec(in []string) *spec {
 			s.entity = genBody(n, seed, p[2])
 		case t[0] == 'K':
 			s.chunk, _ = strconv.Atoi(t[1:])
+		case t[0] == 'E':
+			p := strings.SplitN(t[1:], ":", 2)
+			if len(p) != 2 {
+				s.bad = "E"
+				break
+			}
+			s.srcKind = p[0]
+			s.srcPos, _ = strconv.Atoi(p[1])
+			switch strings.TrimSuffix(s.srcKind, "+") {
+			case "ueof", "net", "custom", "eof":
+			default:
+				s.bad = "E"
+			}
 		case t[0] == 'C':
 			s.conc, _ = strconv.Atoi(t[1:])
 			if s.conc < 0 || s.conc > 64 {
@@ -367,6 +388,58 @@ func reason(code int) string {
 	}
 	return "Status"
 }
+
+// ---------------------------------------------------------------- body sources
+
+var errCustom = errors.New("c15: upstream went away")
+
+type scriptBody struct {
+	data   []byte
+	off    int
+	limit  int
+	err    error
+	with   bool // the final error comes together with the last piece
+	closed bool
+}
+
+func newScriptBody(data []byte, kind string, pos int) *scriptBody {
+	b := &scriptBody{data: data, limit: len(data), err: io.EOF, with: strings.HasSuffix(kind, "+")}
+	switch strings.TrimSuffix(kind, "+") {
+	case "ueof":
+		b.err = io.ErrUnexpectedEOF
+	case "net":
+		b.err = &net.OpError{Op: "read", Net: "tcp", Err: errors.New("connection reset by peer")}
+	case "custom":
+		b.err = errCustom
+	}
+	if b.err != io.EOF {
+		if pos < 0 {
+			pos = 0
+		}
+		if pos > len(data) {
+			pos = len(data)
+		}
+		b.limit = pos
+	}
+	return b
+}
+
+func (b *scriptBody) Read(p []byte) (int, error) {
+	if b.off >= b.limit {
+		return 0, b.err
+	}
+	if len(p) > 512 {
+		p = p[:512]
+	}
+	n := copy(p, b.data[b.off:b.limit])
+	b.off += n
+	if b.off == b.limit && b.with {
+		return n, b.err
+	}
+	return n, nil
+}
+
+func (b *scriptBody) Close() error { b.closed = true; return nil }
 
 // ---------------------------------------------------------------- twins
 
@@ -513,6 +586,10 @@ func errEnum(err error) string {
 	}
 	s := err.Error()
 	switch {
+	case errors.Is(err, errCustom):
+		return "custom"
+	case strings.Contains(s, "connection reset by peer"):
+		return "net"
 	case strings.Contains(s, "unexpected EOF"):
 		return "unexpected-eof"
 	case strings.Contains(s, "suspiciously long trailer"):
@@ -567,6 +644,37 @@ func sameWire(a, b []byte) bool {
 	pa, ta, ea := dechunkWire(ba)
 	pb, tb, eb := dechunkWire(bb)
 	return ea == eb && bytes.Equal(pa, pb) && bytes.Equal(ta, tb)
+}
+
+func sameFailedWire(u, l []byte) bool {
+	hu, bu, oku := splitWire(u)
+	hl, bl, okl := splitWire(l)
+	if !oku || !okl {
+		return bytes.HasPrefix(u, l)
+	}
+	if !bytes.Equal(hu, hl) {
+		return false
+	}
+	if !bytes.Contains(hu, []byte("\r\nTransfer-Encoding: chunked\r\n")) {
+		return bytes.HasPrefix(bu, bl)
+	}
+	pu, _, eu := dechunkWire(bu)
+	pl, _, el := dechunkWire(bl)
+	// eu/el == "none" would mean the last-chunk was written: a complete message
+	return eu == el && bytes.HasPrefix(pu, pl)
+}
+
+// complete says whether serialised bytes form a complete chunked message (1),
+// an incomplete one (0) or are not chunked (-).
+func complete(w []byte) string {
+	h, b, ok := splitWire(w)
+	if !ok || !bytes.Contains(h, []byte("\r\nTransfer-Encoding: chunked\r\n")) {
+		return "-"
+	}
+	if _, _, e := dechunkWire(b); e == "none" {
+		return "1"
+	}
+	return "0"
 }
 
 func splitWire(w []byte) (head, rest []byte, ok bool) {
@@ -911,6 +1019,14 @@ func runOne(in []string) (out []string) {
 		if s.skip && i >= 2 {
 			ctx.SkipLogging()
 		}
+		if s.srcKind != "" {
+			sb := newScriptBody(s.entity, s.srcKind, s.srcPos)
+			if m.req != nil {
+				m.req.Body = sb
+			} else {
+				m.res.Body = sb
+			}
+		}
 		tw[i] = m
 	}
 	out = append(out, tw[0].fields("o")...)
@@ -935,10 +1051,22 @@ func runOne(in []string) (out []string) {
 		rec = rec2
 	}
 	fwd := "1"
-	if !sameWire(uw, lw) || uerr != lerr {
+	srcFailed := s.srcKind != "" && strings.TrimSuffix(s.srcKind, "+") != "eof"
+	if srcFailed {
+		// a failing body source: Write must fail the same way on both twins, no
+		// twin may look complete, and the logged twin must not have emitted body
+		// bytes the unlogged one did not (a logger that already consumed part
+		// of the doomed body emits a prefix)
+		if !sameFailedWire(uw, lw) || uerr != lerr {
+			fwd = "0"
+		}
+	} else if !sameWire(uw, lw) || uerr != lerr {
 		fwd = "0"
 	}
 	out = append(out, "fwd="+fwd, "ufr="+framing(uw), "lfr="+framing(lw), "rec="+strconv.Itoa(rec))
+	if srcFailed {
+		out = append(out, "srcfail=1", "uwerr="+uerr, "lwerr="+lerr, "ucomplete="+complete(uw), "lcomplete="+complete(lw))
+	}
 	if r1.captured != nil && e1 == "0" {
 		out = append(out, "cap="+r1.captured())
 	}
@@ -1433,6 +1561,31 @@ func main() {
 				in = append(in, hkv("Content-Type", "text/plain"), hkv("Content-Encoding", cls[0]),
 					"F"+[]string{"cl", "ch"}[r.Intn(2)], fmt.Sprintf("G%d:%d:%s", r.Range(20, 400), r.Intn(1000), cls[1]))
 				emit("mal", in)
+			}
+		}
+	}
+
+	// 8. body sources that fail: every logger x kind x position; and EOF delivered with the last piece
+	for _, lg := range loggers {
+		for _, kind := range []string{"REQ", "RES"} {
+			for _, fr := range []string{"cl", "ch"} {
+				for _, ek := range []string{"ueof", "net", "custom", "ueof+", "custom+", "eof+"} {
+					for _, pos := range []int{0, 1, 700, 1499, 1500} {
+						if ek == "eof+" && pos != 0 {
+							continue
+						}
+						in := []string{kind, "lg=" + lg, "skip=" + []string{"0", "0", "1"}[rng.Intn(3)]}
+						if strings.HasPrefix(lg, "snap") {
+							in[2] = "skip=0"
+						}
+						if kind == "REQ" {
+							in = append(in, "MPOST")
+						}
+						in = append(in, hkv("Content-Type", "text/plain"), "F"+fr, fmt.Sprintf("G1500:%d:id", rng.Intn(1000)),
+							fmt.Sprintf("E%s:%d", ek, pos))
+						emit("src", in)
+					}
+				}
 			}
 		}
 	}
